@@ -257,10 +257,6 @@ Qed.
 
 (* ------------------------------------------------ non-vacuity / refutations *)
 
-Definition ex_env : list str := [[115;116;100]; []; [115;105;116;101]]%N.          (* 'std', '', 'site' *)
-Definition ex_proj : str := [112;114;111;106]%N.                                   (* 'proj' *)
-Definition ex_gi : str := [103;105]%N.                                             (* 'gi' *)
-Definition ex_cfg (u : bool) : cfg := {| auto_import := [ex_gi]; unsafe := u; env_path := ex_env |}.
 
 Lemma unsafe_searches_project :
   exists c name0 dotted fr sp d,
